@@ -1133,6 +1133,8 @@ func checkIntegerAddresses(c *core.Ctx) {
 							status, detail = "ok", "the holder is a value-typed field of "+x.Name()+"'s own struct: it lives and dies with the object whose addresses it records"
 						} else if storedElsewhereParam(x, fn) {
 							status, detail = "ok", "the foreign object "+x.Name()+" is stored in the holder alongside its raw address"
+						} else if storedByEveryCaller(x, fn, fns) {
+							status, detail = "ok", "the foreign object "+x.Name()+" is stored in the holder by the function(s) that hand it to this step"
 						} else if why, ok := integerAddrExempt[strings.ReplaceAll(fn.String(), "github.com/tetratelabs/wazero/", "")+"|"+x.Name()]; ok {
 							status, detail = "ok", "keeper outside the function: "+why
 						} else {
@@ -1401,6 +1403,55 @@ func storedElsewhere(al *ssa.Alloc, except *ssa.Convert) bool {
 }
 
 // storedElsewhereParam: the parameter (or a type-asserted form of it) is stored by the function.
+// storedByEveryCaller: fn is a step of a split function: every call of fn in the package passes, for parameter p, a
+// parameter of the caller that the caller stores (one level up).
+func storedByEveryCaller(p *ssa.Parameter, fn *ssa.Function, fns []*ssa.Function) bool {
+	idx := -1
+	for i, q := range fn.Params {
+		if q == p {
+			idx = i
+		}
+	}
+	if idx < 0 {
+		return false
+	}
+	sites := 0
+	for _, caller := range fns {
+		for _, b := range caller.Blocks {
+			for _, in := range b.Instrs {
+				call, ok := in.(*ssa.Call)
+				if !ok || call.Common().StaticCallee() != fn || caller == fn {
+					continue
+				}
+				sites++
+				args := call.Common().Args
+				if idx >= len(args) {
+					return false
+				}
+				if cp, ok := args[idx].(*ssa.Parameter); ok && storedElsewhereParam(cp, caller) {
+					continue
+				}
+				// or the argument is reached through the caller's own receiver, which is also the receiver of fn: the pointee
+				// is owned by / reachable from the holder itself
+				if caller.Signature.Recv() != nil && fn.Signature.Recv() != nil && len(caller.Params) > 0 && args[0] == ssa.Value(caller.Params[0]) && idx > 0 {
+					roots := addrRoots(args[idx], 0, map[ssa.Value]bool{})
+					all := len(roots) > 0
+					for _, r := range roots {
+						if r != ssa.Value(caller.Params[0]) {
+							all = false
+						}
+					}
+					if all {
+						continue
+					}
+				}
+				return false
+			}
+		}
+	}
+	return sites > 0
+}
+
 func storedElsewhereParam(p *ssa.Parameter, fn *ssa.Function) bool {
 	vals := map[ssa.Value]bool{p: true}
 	for _, r := range *p.Referrers() {
